@@ -568,10 +568,12 @@ def serveStep (j : Json) : Json :=
     let live := (arrOf j "live").map sframeOfJson
     let dup := (arrOf j "duplex").filterMap (fun x => match x with | .str s => some (hexToNat s) | _ => none)
     let duplexOf : SFrame → Bool := fun f => dup.contains f.id
+    let bad := (arrOf j "unparsable").filterMap (fun x => match x with | .str s => some (hexToNat s) | _ => none)
+    let parses : SFrame → Bool := fun f => !bad.contains f.id
     -- start-up: the compacted spawns go through the same acceptance as live ones
     let restarted := gcompact history
-    let r0 := genRun duplexOf [] restarted
-    let r := genRun duplexOf r0.1 live
+    let r0 := genRun duplexOf parses [] restarted
+    let r := genRun duplexOf parses r0.1 live
     let actJ : GAct → Json := fun a => match a with
       | .start t => Json.mkObj [("start", .str (idToHex t.id)), ("ctx", .str (idToHex t.ctx)), ("name", .str t.name),
           ("duplex", .bool t.duplex)]
